@@ -52,9 +52,9 @@ def main():
         'setup_cmd': './check --selftest',
         'hooks': {
             'guard': 'emmyluals_emmylua_analyzer_rust_verif',
-            'enable': 'RUSTFLAGS="--cfg emmyluals_emmylua_analyzer_rust_verif" (set in replay/c25/.cargo/config.toml and replay/c26/.cargo/config.toml). One hook module, add-only: emmylua_ls::handlers::verif_hooks re-exports handler entry points (position-taking requests; range formatting, color presentation, inlay hints, didOpen/didChange; selection range, document symbols, folding ranges, semantic tokens, server_capabilities) and the server context types for the bounded searches replay/c25 and replay/c26; the Verus units read source text and need no hook; the other replay/Kani crates use public API',
+            'enable': 'RUSTFLAGS="--cfg emmyluals_emmylua_analyzer_rust_verif" (set in replay/c25/.cargo/config.toml and replay/c26/.cargo/config.toml). One hook module, add-only: emmylua_ls::handlers::verif_hooks re-exports handler entry points (position-taking requests; range formatting, color presentation, inlay hints, didOpen/didChange; selection range, document symbols, folding ranges, semantic tokens, server_capabilities; didClose / didSave and a wrapper of the private apply_workspace_reload) and the server context types for the bounded searches replay/c25, replay/c26 and replay/c29; the Verus units read source text and need no hook; the other replay/Kani crates use public API',
             'baseline_off_cmd': 'cd /repo && cargo nextest run --workspace --no-fail-fast --test-threads 8 --offline || cargo test --workspace --no-fail-fast --offline',
-            'source_commits': ['16c6446', 'baba425', 'd87e480'],
+            'source_commits': ['16c6446', 'baba425', 'd87e480', 'c1672bc'],
             'add_only': True,
         },
         'engines': [
